@@ -27,6 +27,10 @@ def ratW : W → Rat
 def getR (l : List Rat) (i : Nat) : Rat := l[i]?.getD 0
 def setR (l : List Rat) (i : Nat) (v : Rat) : List Rat := l.set i v
 
+/-- a slice / `Vec` index expression `v[i]` with `v.len() = len`: out of range is a panic (`getR` / `setR` /
+    `List.set` / `[·]?.getD` below are only ever reached after the guard for the same index has succeeded) -/
+def idxGuard (site : String) (len i : Nat) : Outcome Unit := if i < len then .ok () else .panic site
+
 /-- weighted degrees as the code obtains them (`get_weighted_*_for_all_nodes().unwrap()`), as rationals -/
 def degMap (m : Outcome (List (Nat × W))) : Outcome (List (Nat × Rat)) := m.map' fun l => l.map fun kv => (kv.1, ratW kv.2)
 
@@ -98,9 +102,21 @@ def visit (lv : Level) (m res : Rat) (st : LState) (u : Nat) : Outcome LState :=
     else do
       let d ← Outcome.ofOption "subtract_degree: degrees.get(u).unwrap()" (alookup st.di.deg u)
       .ok ((0 : Rat), (0 : Rat), d))
+  -- `deg_info.stot_in[best_com] -= ..; deg_info.stot_out[best_com] -= ..` / `deg_info.stot[best_com] -= ..`
+  (if dir then do
+      idxGuard "subtract_degree_from_best_com: stot_in[best_com]" st.di.stotIn.length cur
+      idxGuard "subtract_degree_from_best_com: stot_out[best_com]" st.di.stotOut.length cur
+    else idxGuard "subtract_degree_from_best_com: stot[best_com]" st.di.stot.length cur)
   let di := if dir then { st.di with stotIn := setR st.di.stotIn cur (getR st.di.stotIn cur - inD),
                                       stotOut := setR st.di.stotOut cur (getR st.di.stotOut cur - outD) }
             else { st.di with stot := setR st.di.stot cur (getR st.di.stot cur - dg) }
+  -- update_best_com reads `stot_in[nbr_com]`, `stot_out[nbr_com]` / `stot[nbr_com]` for every candidate community (in scan order)
+  ((isort (fun a b => decide (a.1 ≤ b.1)) w2c).foldl (fun acc a => do
+      acc
+      if dir then do
+        idxGuard "update_best_com: stot_in[nbr_com]" di.stotIn.length a.1
+        idxGuard "update_best_com: stot_out[nbr_com]" di.stotOut.length a.1
+      else idxGuard "update_best_com: stot[nbr_com]" di.stot.length a.1) (.ok ()))
   -- update_best_com: candidates in increasing community id, strict improvement only
   let gain (c : Nat) (wt : Rat) : Rat :=
     if dir then Louvain.gainDirected m res wt outD inD (getR di.stotIn c) (getR di.stotOut c)
@@ -112,15 +128,29 @@ def visit (lv : Level) (m res : Rat) (st : LState) (u : Nat) : Outcome LState :=
   let risky := w2c.any fun a => w2c.any fun b =>
     a.1 != b.1 && operands a.1 a.2 != operands b.1 b.2 &&
     (let d := gain a.1 a.2 - gain b.1 b.2; (-eps ≤ d) && (d ≤ eps))
-  -- add_degree_to_best_com
+  -- add_degree_to_best_com: `deg_info.stot_in[best_com] += ..; deg_info.stot_out[best_com] += ..` / `deg_info.stot[best_com] += ..`
+  (if dir then do
+      idxGuard "add_degree_to_best_com: stot_in[best_com]" di.stotIn.length bestCom
+      idxGuard "add_degree_to_best_com: stot_out[best_com]" di.stotOut.length bestCom
+    else idxGuard "add_degree_to_best_com: stot[best_com]" di.stot.length bestCom)
   let di := if dir then { di with stotIn := setR di.stotIn bestCom (getR di.stotIn bestCom + inD),
                                    stotOut := setR di.stotOut bestCom (getR di.stotOut bestCom + outD) }
             else { di with stot := setR di.stot bestCom (getR di.stot bestCom + dg) }
-  if bestCom != cur then
+  if bestCom != cur then do
+    -- `graph.get_node(*u).unwrap()`
+    let _ ← Outcome.ofOption "compute_one_level: get_node(u).unwrap()" (g.getNode u)
     let com := (alookup lv.members u).getD [u]
+    -- `_partition[n2c] = _partition[n2c].difference(&com)..`
+    idxGuard "compute_one_level: _partition[n2c]" st.part.length cur
     let part := st.part.set cur (sdiff (st.part[cur]?.getD []) com)
+    -- `inner_partition[n2c].remove(u)`
+    idxGuard "compute_one_level: inner_partition[n2c]" st.inner.length cur
     let inner := st.inner.set cur ((st.inner[cur]?.getD []).filter (· != u))
+    -- `_partition[best_com] = _partition[best_com].union(&com)..`
+    idxGuard "compute_one_level: _partition[best_com]" part.length bestCom
     let part := part.set bestCom (sunion (part[bestCom]?.getD []) com)
+    -- `inner_partition[best_com].insert(*u)`
+    idxGuard "compute_one_level: inner_partition[best_com]" inner.length bestCom
     let inner := inner.set bestCom (sinsert (inner[bestCom]?.getD []) u)
     .ok { part := part, inner := inner, node2com := ainsert st.node2com u bestCom, di := di, improvement := true, moves := st.moves + 1,
           risky := st.risky || risky }
@@ -150,6 +180,9 @@ def computeOneLevel (lv : Level) (m res : Rat) (partition : List (List Nat)) (pe
 /-- `generate_graph` -/
 def generateGraph (lv : Level) (inner : List (List Nat)) : Outcome Level := do
   let sp := { lv.g.specs with selfLoops := true, dedupe := .keepLast }
+  -- `graph.get_node(node.clone()).unwrap()` for every member of every part
+  (if inner.all (fun part => part.all fun x => (lv.g.getNode x).isSome) then .ok ()
+   else .panic "generate_graph: get_node(node).unwrap()")
   let node2com : List (Nat × Nat) := inner.zipIdx.foldl (fun m p => p.1.foldl (fun m x => ainsert m x p.2) m) []
   let members : List (Nat × List Nat) := inner.zipIdx.map fun p =>
     (p.2, p.1.foldl (fun acc x => sunion acc ((alookup lv.members x).getD [x])) [])
